@@ -18,7 +18,13 @@ R = Rules(
         "sites; a non-empty backlog is only dropped together with a dispatch_error for the same remote.  Liveness "
         "under arbitrary timing is not decided."
     ),
-    rule_text="ownership / pairing rules over all writers of two fields, dominance and must-pass path rules on per-function CFGs",
+    rule_text=(
+        "ownership / pairing rules over all writers of two fields (located by effect: every spelling of insert / remove / "
+        "membership on the table and of enqueue / dequeue on its element queues, through aliases), abstract evaluation of "
+        "exchange keys (which remote a removed key belongs to, through collected key lists, filters and predicate helpers), "
+        "dominance and must-pass path rules on per-function CFGs, finite-domain evaluation (message type x backlog "
+        "membership) of the branch facts valid at a site on every path of the path model"
+    ),
 )
 
 MM = "messagemanager.MessageManager."
@@ -26,21 +32,10 @@ AX = "self._active_exchanges"
 BL = "self._backlogs"
 
 
-def pseudo(cfg, pattern, polarity=True):
-    """Pseudo-nodes (branch outcomes) on which `pattern` has `polarity`."""
-    out = []
-    for n in cfg.nodes:
-        if n.kind not in ("T", "F") or n.ast is None:
-            continue
-        pol = n.kind == "T"
-        if match(pattern, n.ast) is not None and pol == polarity:
-            out.append(n.id)
-        else:
-            from ..rulekit import _negated
-            ne = _negated(n.ast)
-            if ne is not None and match(pattern, ne) is not None and pol != polarity:
-                out.append(n.id)
-    return out
+from . import _kit_c14 as K
+
+ENQ = ("append", "appendleft", "insert", "extend", "extendleft", "aug")
+DEQ = ("pop", "popleft", "delitem", "remove")
 
 
 def mm_funcs(prog):
@@ -59,252 +54,501 @@ def touches(fi, field):
     return any(chain(n) == field for n in ast.walk(fi.node) if isinstance(n, ast.Attribute))
 
 
+def _int(e):
+    """Constant integer value of an index expression (`0`, `-1`), else None."""
+    try:
+        v = ast.literal_eval(e)
+    except Exception:
+        return None
+    return v if isinstance(v, int) and not isinstance(v, bool) else None
+
+
+def _is_clear(op):
+    return isinstance(op.node, ast.Call) and isinstance(op.node.func, ast.Attribute) and op.node.func.attr == "clear"
+
+
+def _empty_collection(e):
+    """`[]`, `list()`, `deque()`, `collections.deque()`: a queue nobody waits in."""
+    if isinstance(e, (ast.List, ast.Tuple)) and not e.elts:
+        return True
+    if isinstance(e, ast.Call) and not e.args and not e.keywords and (call_name(e) or "").split(".")[-1] in ("list", "deque"):
+        return True
+    return False
+
+
+def _self_calls(fnode, method):
+    """Calls `self.<method>(...)` in the function (comprehensions entered, nested defs not)."""
+    return [c for c in calls_in(fnode) if isinstance(c.func, ast.Attribute) and c.func.attr == method and isinstance(c.func.value, ast.Name) and c.func.value.id == "self"]
+
+
+def _bound(call, names):
+    """Arguments of a call by parameter name (positional order `names`); None when the call uses * or **."""
+    out = {}
+    for n_, a_ in zip(names, call.args):
+        if isinstance(a_, ast.Starred):
+            return None
+        out[n_] = a_
+    if len(call.args) > len(names):
+        return None
+    for kw in call.keywords:
+        if kw.arg is None:
+            return None
+        out[kw.arg] = kw.value
+    return out
+
+
+def _nothing_removed(sc, cfg, op):
+    """Branch outcomes on which a tolerant removal `d.pop(key, default)` is known to have removed nothing: its
+    result (directly, through a walrus or a single-assignment local) is the default (`is default`, `== default`;
+    or falsy when the default is a falsy constant -- the stored exchanges are non-empty pairs)."""
+    n = op.node
+    if not (isinstance(n, ast.Call) and isinstance(n.func, ast.Attribute) and n.func.attr == "pop" and len(n.args) == 2):
+        return []
+    dflt = n.args[1]
+    falsy = (isinstance(dflt, ast.Constant) and not dflt.value) or (isinstance(dflt, (ast.Tuple, ast.List, ast.Dict)) and not (getattr(dflt, "elts", None) or getattr(dflt, "keys", None)))
+
+    def is_result(e):
+        if isinstance(e, ast.NamedExpr):
+            e = e.value
+        if e is n:
+            return True
+        if isinstance(e, ast.Name):
+            v = sc.single_value(e)
+            return v is n
+        return False
+
+    out = []
+    for nd in cfg.nodes:
+        if nd.kind not in ("T", "F") or nd.ast is None or isinstance(nd.ast, (ast.For, ast.AsyncFor)):
+            continue
+        e, pol = K.strip_not(nd.ast)
+        holds = None  # e true <=> nothing removed ?
+        if isinstance(e, ast.Compare) and len(e.ops) == 1 and isinstance(e.ops[0], (ast.Is, ast.IsNot, ast.Eq, ast.NotEq)):
+            l_, r_ = e.left, e.comparators[0]
+            if is_result(r_):
+                l_, r_ = r_, l_
+            if is_result(l_) and same(r_, dflt):
+                holds = isinstance(e.ops[0], (ast.Is, ast.Eq))
+        elif is_result(e) and falsy:
+            holds = False
+        if holds is None:
+            continue
+        if ((nd.kind == "T") == pol) == holds:
+            out.append(nd.id)
+    return out
+
+
 @R.clause("C14.a", "invariant backlog entry <=> active exchange: atomic functions, entry created before the exchange, every removal compensated")
 def a(ctx):
-    funcs = [f for f in mm_funcs(ctx.prog) if touches(f, AX) or touches(f, BL)]
+    prog = ctx.prog
+    cls = prog.cls("messagemanager.MessageManager")
+    funcs = [f for f in mm_funcs(prog) if touches(f, AX) or touches(f, BL)]
     ctx.floor("functions touching _active_exchanges/_backlogs", len(funcs), 7)
+    ke = K.KeyEval(prog, cls, AX)
+    ops = {}
+    for fi in mm_funcs(prog):
+        sc = ke.scope(fi)
+        ops[fi.qn] = (K.table_ops(sc, AX), K.table_ops(sc, BL))
     for fi in funcs:
-        writes = stores_to(fi.node, AX, nested=False) + stores_to(fi.node, BL, nested=False)
-        if not writes:
+        oa, ob_ = ops[fi.qn]
+        if not (oa or ob_):
             continue
         ctx.ob("%s mutates the tables atomically (plain def, no await/yield)" % fi.name, is_plain_sync(fi) or fi.name == "shutdown", fi, fi.node, construct="def " + fi.name)
     # shutdown is async: its writes must precede its first await
-    sh = ctx.prog.func(MM + "shutdown")
+    sh = prog.func(MM + "shutdown")
     scfg = cfg_of(sh)
     awaits = [scfg.loc1(n) for n in walk_no_nested(sh.node) if isinstance(n, ast.Await)]
-    for kind, n in stores_to(sh.node, AX, nested=False) + stores_to(sh.node, BL, nested=False):
-        nid = scfg.loc1(n)
-        ctx.ob("shutdown retires the tables before its first suspension point", not any(nid in scfg.reach({a}) for a in awaits), sh, n)
+    for o in ops[sh.qn][0] + ops[sh.qn][1]:
+        nid = scfg.loc1(o.node)
+        ctx.ob("shutdown retires the tables before its first suspension point", not any(nid in scfg.reach({a_}) for a_ in awaits), sh, o.node)
 
-    # insertion side
-    fi = ctx.prog.func(MM + "_add_exchange")
-    m = params(fi)[0]
-    cfg = cfg_of(fi)
-    ins = [n for k, n in stores_to(fi.node, AX) if k == "setitem"]
-    ctx.floor("exchange insertions in _add_exchange", len(ins), 1)
-    est = pseudo(cfg, "%s.remote in self._backlogs" % m, True)
-    for k, n in stores_to(fi.node, BL):
-        if k == "setitem" and isinstance(n, ast.Assign) and match("self._backlogs[%s.remote]" % m, n.targets[0]) is not None:
-            est.append(cfg.loc1(n))
-    for n in ins:
-        nid = cfg.loc1(n)
-        ok = bool(est) and not cfg.exists_path(cfg.entry, nid, avoid=set(est))
-        ctx.ob("an exchange is recorded only when the remote's backlog entry exists", ok, fi, n)
-    # the created entry is an empty list
-    for k, n in stores_to(fi.node, BL):
-        if k == "setitem":
-            ctx.ob("a fresh backlog entry is empty", isinstance(n, ast.Assign) and isinstance(n.value, ast.List) and not n.value.elts, fi, n)
+    def remotes_of(sc, key):
+        """[(set of abstract remote values, origin)] for a key of the exchange table"""
+        if key is None:
+            return [(set(), "every key")]
+        return ke.key_alternatives(sc, key)
+
+    # insertion side: wherever an exchange is recorded, the remote's backlog entry exists on every path --
+    # established by a membership test, by creating the entry (`d[k] = ..`, `setdefault`), or because an exchange
+    # with the same remote was taken out just before (its entry is still there: re-arming a retransmission)
+    n_ins = 0
+    for fi in mm_funcs(prog):
+        oa, ob_ = ops[fi.qn]
+        ins = [o for o in oa if o.level == "table" and o.kind in ("set", "ensure")]
+        if not ins:
+            continue
+        sc = ke.scope(fi)
+        cfg = cfg_of(fi)
+        for o in ins:
+            n_ins += 1
+            alts = remotes_of(sc, o.key)
+            ok = bool(alts)
+            for rs, origin in alts:
+                if not rs:
+                    ok = False
+                    continue
+                keytest = lambda e_, rs=rs: ke.aval(sc, e_) in rs
+                present, _absent = K.membership_outcomes(sc, BL, keytest)
+                est = list(present)
+                for o2 in ob_:
+                    if o2.level == "table" and o2.kind in ("set", "ensure") and o2.key is not None and keytest(o2.key):
+                        est.extend(cfg.locate(o2.node))
+                for o2 in oa:
+                    if o2.level == "table" and o2.kind == "del" and o2.key is not None and o2 is not o:
+                        a2 = remotes_of(sc, o2.key)
+                        if a2 and all(r2 and r2 <= rs for r2, _ in a2):
+                            est.extend(cfg.locate(o2.node))
+                drops = set()
+                for o2 in ob_:
+                    if o2.level == "table" and o2.kind in ("del", "rebind") or o2.kind.startswith("ref:"):
+                        drops.update(cfg.locate(o2.node))
+                nid = cfg.loc1(o.node)
+                if not est or cfg.exists_path(cfg.entry, nid, avoid=set(est)) or nid == cfg.entry:
+                    ok = False
+                # the entry is not dropped again between the evidence and the insertion
+                for d_ in drops:
+                    if any(cfg.exists_path(e_, d_) for e_ in est) and cfg.exists_path(d_, nid):
+                        ok = False
+            ctx.ob("an exchange is recorded only when the remote's backlog entry exists", ok, fi, o.node)
+    ctx.floor("exchange insertions", n_ins, 1)
+    fi = prog.func(MM + "_add_exchange")
+    ctx.floor("exchange insertions in _add_exchange", len([o for o in ops[fi.qn][0] if o.level == "table" and o.kind in ("set", "ensure")]), 1)
+    # a created entry is an empty queue
+    for f_ in mm_funcs(prog):
+        if f_.name == "__init__":
+            continue
+        for o in ops[f_.qn][1]:
+            if o.level == "table" and o.kind in ("set", "ensure"):
+                ctx.ob("a fresh backlog entry is empty", o.value is not None and _empty_collection(K.Scope(f_).deref(o.value)), f_, o.node)
 
     # removal side
     removals = []
-    for f in mm_funcs(ctx.prog):
-        for k, n in stores_to(f.node, AX, nested=False):
-            if k in ("pop", "delitem", "popitem", "clear"):
-                removals.append((f, k, n))
+    for f_ in mm_funcs(prog):
+        for o in ops[f_.qn][0]:
+            if o.level == "table" and (o.kind == "del" or o.kind.startswith("ref:")):
+                removals.append((f_, o))
+            elif o.level == "table" and o.kind == "rebind" and f_.name != "__init__" and not (o.value is not None and K.is_none(o.value)):
+                # a new table object forgets every exchange (None: the shut-down marker, after which send_message
+                # forces NON and nothing is held back any more)
+                removals.append((f_, K.Op("table", "del", o.node, key=None)))
     ctx.floor("removal sites of _active_exchanges", len(removals), 2)
     from . import c03
     c03.retransmit_removes_exchange(ctx)
-    for f, k, n in removals:
-        cfg = cfg_of(f)
-        nid = cfg.loc1(n)
-        comp = []
-        key = n.args[0] if (k == "pop" and n.args) else None
-        keyr = resolve_local(f.node, key) if key is not None else None
-        remote_expr = None
-        kb = match("($r, $m)", keyr) if keyr is not None else None
-        if kb:
-            remote_expr = kb["r"]
-        for c, b in find("self._continue_backlog($r)", f.node):
-            if remote_expr is None or same(b["r"], remote_expr):
-                comp.append(cfg.loc1(c))
-        for k2, n2 in stores_to(f.node, AX, nested=False):
-            if k2 == "setitem" and key is not None and isinstance(n2, ast.Assign) and isinstance(n2.targets[0], ast.Subscript) and same(n2.targets[0].slice, key):
-                comp.append(cfg.loc1(n2))
-        for k2, n2 in stores_to(f.node, BL, nested=False):
-            if k2 in ("delitem", "pop"):
-                r2 = n2.args[0] if k2 == "pop" else n2.targets[0].slice
-                if remote_expr is None or same(r2, remote_expr):
-                    comp.append(cfg.loc1(n2))
-        ok = bool(comp) and cfg.must_pass(nid, comp)
-        ctx.ob("removing an exchange is followed on every normal path by continuing or dropping that remote's backlog (or re-inserting the exchange)", ok, f, n,
-               detail="%d compensating site(s)" % len(comp))
-    # dispatch_error: removed keys are those of the reported remote, and its backlog is dropped for that remote
-    de = ctx.prog.func(MM + "dispatch_error")
+    de = prog.func(MM + "dispatch_error")
     rp = params(de)[1]
-    dcfg = cfg_of(de)
-    apps = list(find("$l.append($k)", de.node))
-    for c, b in apps:
-        if not isinstance(b["l"], ast.Name):
+    for f_, o in removals:
+        sc = ke.scope(f_)
+        cfg = cfg_of(f_)
+        nid = cfg.loc1(o.node)
+        oa, ob_ = ops[f_.qn]
+        if o.kind.startswith("ref:"):
+            ctx.ob("removing an exchange is followed on every normal path by continuing or dropping that remote's backlog (or re-inserting the exchange)", False, f_, o.node,
+                   detail="the removing method is handed on as a value; when it runs is outside the rule's vocabulary")
             continue
-        nid = dcfg.loc1(c)
-        gs = guard_exprs(dcfg, nid)
-        ok = any(isinstance(e, ast.Compare) and isinstance(e.ops[0], ast.Eq) and pol and rp in names_in(e) for e, pol in gs)
-        ctx.ob("dispatch_error selects only exchanges of the reported remote", ok, de, c)
-    for k2, n2 in stores_to(de.node, BL, nested=False):
-        r2 = n2.args[0] if k2 == "pop" else (n2.targets[0].slice if k2 == "delitem" else None)
-        ctx.ob("dispatch_error drops the backlog of the reported remote", isinstance(r2, ast.Name) and r2.id == rp, de, n2)
+        alts = remotes_of(sc, o.key)
+        ok = bool(alts)
+        ncomp = 0
+        known = True
+        for rs, origin in alts:
+            comp = []
+            everything = o.key is None
+            if not rs and not everything:
+                ok = known = False
+                continue
+            match_r = (lambda e_: False) if everything else (lambda e_, rs=rs: ke.aval(sc, e_) in rs)
+            for c_ in _self_calls(f_.node, "_continue_backlog"):
+                b_ = _bound(c_, params(prog.func(MM + "_continue_backlog")))
+                if b_ and len(b_) == 1 and match_r(list(b_.values())[0]):
+                    comp.extend(cfg.locate(c_))
+            for o2 in oa:
+                if o2.level == "table" and o2.kind in ("set", "ensure") and o2.key is not None:
+                    a2 = remotes_of(sc, o2.key)
+                    if a2 and all(r2 and r2 <= rs for r2, _ in a2):
+                        comp.extend(cfg.locate(o2.node))
+            for o2 in ob_:
+                if o2.level == "table" and o2.kind == "del":
+                    if (o2.key is not None and match_r(o2.key)) or (o2.key is None and _is_clear(o2)):
+                        comp.extend(cfg.locate(o2.node))
+            if not everything:
+                _present, absent = K.membership_outcomes(sc, BL, match_r)
+                comp.extend(absent)
+            comp.extend(_nothing_removed(sc, cfg, o))
+            ncomp += len(comp)
+            if not (comp and cfg.must_pass(nid, comp)):
+                ok = False
+        ctx.ob("removing an exchange is followed on every normal path by continuing or dropping that remote's backlog (or re-inserting the exchange)", ok, f_, o.node,
+               detail="%d compensating site(s)%s" % (ncomp, "" if known else "; the remote of the removed exchange is not determined (%s)" % "; ".join(w for _, w in alts)))
+        if f_ is de:
+            # removed keys are those of the reported remote
+            sel = bool(alts) and all(("param", rp) in rs for rs, _ in alts)
+            ctx.ob("dispatch_error selects only exchanges of the reported remote", sel, de, o.node, detail="; ".join(w for _, w in alts))
+    # dispatch_error drops the backlog of the reported remote
+    dsc = ke.scope(de)
+    for o2 in ops[de.qn][1]:
+        if o2.level == "table" and o2.kind in ("del", "rebind"):
+            ctx.ob("dispatch_error drops the backlog of the reported remote", o2.key is not None and ke.aval(dsc, o2.key) == ("param", rp), de, o2.node)
 
 
 @R.clause("C14.b", "send_message queues exactly the CONs whose remote has a backlog entry; everything else is sent at once")
 def b(ctx):
-    fi = ctx.prog.func(MM + "send_message")
+    prog = ctx.prog
+    cls = prog.cls("messagemanager.MessageManager")
+    fi = prog.func(MM + "send_message")
     p = params(fi)
     m, mon = p[0], p[1]
     cfg = cfg_of(fi)
-    enq = [(k, n) for k, n in stores_to(fi.node, BL) if k in ("append", "insert", "appendleft", "extend", "setitem")]
+    sc = K.Scope(fi)
+    enq = [o for o in K.table_ops(sc, BL) if (o.level == "elem" and (o.kind in ENQ or o.kind.startswith("ref:"))) or (o.level == "table" and o.kind in ("set", "ensure"))]
     ctx.floor("enqueue sites in send_message", len(enq), 1)
-    for k, n in enq:
-        nid = cfg.loc1(n)
-        gs = guard_exprs(cfg, nid)
-        alive, others = mtype_values(gs, "%s.mtype" % m, ("CON", "NON", "ACK", "RST"))
-        ctx.ob("only confirmable messages are held back", alive == {"CON"}, fi, n, detail="mtype in %s" % sorted(alive))
-        ctx.ob("a message is held back only when its remote has a backlog entry", guarded_by(cfg, nid, "%s.remote in self._backlogs" % m, True), fi, n)
-        idx = n.func.value if isinstance(n, ast.Call) else None
-        ctx.ob("the message is queued under its own remote", idx is not None and match("self._backlogs[%s.remote]" % m, idx) is not None, fi, n)
-        arg = n.args[-1] if isinstance(n, ast.Call) and n.args else None
-        tb = match("($a, $b)", arg) if arg is not None else None
-        ctx.ob("what is queued is (message, error monitor)", tb is not None and isinstance(tb["a"], ast.Name) and tb["a"].id == m and isinstance(tb["b"], ast.Name) and tb["b"].id == mon, fi, n)
-        extra = [e for e, pol in others if match("%s.remote in self._backlogs" % m, e) is None and match("%s.remote not in self._backlogs" % m, e) is None]
-        ctx.ob("no further condition lets a CON bypass the queue", not extra, fi, n, detail=str([stmt_text(e) for e in extra]))
-    sends = list(find("self._send_initially($*a)", fi.node))
+    # Decided on the path model: for every path through a site, the branch outcomes still valid there (locals
+    # replaced by their definitions, facts about reassigned state dropped) are evaluated in every world
+    # (message type, remote has a backlog entry).  A path is possible in a world unless a fact is refuted in it.
+    sf = K.SiteFacts(fi, tables=(BL, AX), writer_methods=K.transitive_writers(prog, cls, (BL, AX)))
+    W = K.Worlds(m, BL)
+
+    def worlds_at(node):
+        out = set()
+        envs = []
+        per_path = sf.at(cfg.loc1(node))
+        ctx.need(per_path, "send_message: `%s` lies on no normal-flow path (reached through an exception handler only); deciding it is outside the rule's vocabulary" % stmt_text(node))
+        for facts, env, path in per_path:
+            ws = W.feasible(facts)
+            out.update(ws)
+            if ws:
+                envs.append(env)
+        return out, envs
+
+    def is_name(e, name, envs):
+        """e denotes parameter `name` (directly or through a local that holds it on every path)"""
+        if isinstance(e, ast.Name) and e.id == name:
+            return True
+        if isinstance(e, ast.Name) and envs:
+            return all(isinstance(env.get(e.id), ast.Name) and env[e.id].id == name for env in envs)
+        return False
+
+    for o in enq:
+        n = o.node
+        ws, envs = worlds_at(n)
+        ctx.ob("only confirmable messages are held back", bool(ws) and all(w[0] == "CON" for w in ws), fi, n, detail="mtype in %s" % sorted({w[0] for w in ws}))
+        ctx.ob("a message is held back only when its remote has a backlog entry", bool(ws) and all(w[1] for w in ws), fi, n)
+        own = o.level == "elem" and o.qkey is not None and chain(sc.deref(o.qkey)) == "%s.remote" % m
+        ctx.ob("the message is queued under its own remote", own, fi, n)
+        arg = None
+        if o.level == "elem" and o.kind in ("append", "appendleft") and len(o.args) == 1:
+            arg = o.args[0]
+        elif o.level == "elem" and o.kind == "insert" and len(o.args) == 2:
+            arg = o.args[1]
+        elif o.level == "elem" and o.kind in ("extend", "extendleft", "aug") and len(o.args) == 1:
+            l_ = sc.deref(o.args[0])
+            if isinstance(l_, (ast.List, ast.Tuple)) and len(l_.elts) == 1:
+                arg = l_.elts[0]
+        arg = sc.deref(arg) if arg is not None else None
+        tup = arg if isinstance(arg, ast.Tuple) and len(arg.elts) == 2 else None
+        ctx.ob("what is queued is (message, error monitor)", tup is not None and is_name(tup.elts[0], m, envs) and is_name(tup.elts[1], mon, envs), fi, n)
+    sends = _self_calls(fi.node, "_send_initially")
     ctx.floor("_send_initially sites in send_message", len(sends), 1)
-    hold = set(pseudo(cfg, "%s.remote in self._backlogs" % m, True))
-    con_t = set(pseudo(cfg, "%s.mtype == CON" % m, True)) | set(pseudo(cfg, "%s.mtype is CON" % m, True))
-    both = {h for h in hold if any(cfg.dominates(c, h) for c in con_t)}
-    if not both:
-        ctx.ob("send_message holds a CON back exactly when its remote has a backlog entry (membership, not emptiness)", False, fi, enq[0][1] if enq else fi.node,
-               detail="no branch on `mtype == CON and remote in self._backlogs`")
-        return
-    for c, bnd in sends:
-        nid = cfg.loc1(c)
-        ctx.ob("nothing is transmitted at once when a CON's remote has an open exchange", nid not in cfg.reach(both), fi, c)
-        a = bnd["a"]
-        ctx.ob("the transmission carries the message and its error monitor", len(a) == 2 and isinstance(a[0], ast.Name) and a[0].id == m and isinstance(a[1], ast.Name) and a[1].id == mon, fi, c)
+    sp = params(prog.func(MM + "_send_initially"))
+    for c_ in sends:
+        ws, envs = worlds_at(c_)
+        ctx.ob("nothing is transmitted at once when a CON's remote has an open exchange (membership of the backlog table, not emptiness; no further condition lets a CON bypass the queue)",
+               ("CON", True) not in ws, fi, c_)
+        b_ = _bound(c_, sp)
+        ctx.ob("the transmission carries the message and its error monitor", b_ is not None and len(b_) == 2 and len(sp) >= 2 and is_name(b_.get(sp[0]), m, envs) and is_name(b_.get(sp[1]), mon, envs), fi, c_)
     # every normal path ends in a transmission, the queue, or the explicit No-Response suppression return
-    sinks = [cfg.loc1(c) for c, _ in sends] + [cfg.loc1(n) for _, n in enq]
+    sinks = [cfg.loc1(c_) for c_ in sends] + [cfg.loc1(o.node) for o in enq]
     rets = [cfg.loc1(n) for n in walk_no_nested(fi.node) if isinstance(n, ast.Return)]
     ctx.ob("every message that is not suppressed is either transmitted or queued", cfg.must_pass(cfg.entry, sinks + rets), fi, fi.node, construct="def send_message")
+
+
+def _queue_end(o):
+    """'front' / 'back' / '?' : the end of the per-remote queue an operation addresses."""
+    k = o.kind
+    if k in ("append", "extend", "aug"):
+        return "back"
+    if k in ("appendleft", "extendleft", "popleft"):
+        return "front"
+    if k == "insert" and len(o.args) == 2:
+        i = _int(o.args[0])
+        if i == 0:
+            return "front"
+        a0 = o.args[0]
+        if isinstance(a0, ast.Call) and chain(a0.func) == "len" and len(a0.args) == 1 and isinstance(o.node, ast.Call) and same(a0.args[0], o.node.func.value):
+            return "back"
+        return "?"
+    if k == "pop":
+        if not o.args:
+            return "back"
+        i = _int(o.args[0])
+        return "front" if i == 0 else ("back" if i == -1 else "?")
+    if k == "delitem" and len(o.args) == 1:
+        i = _int(o.args[0])
+        return "front" if i == 0 else ("back" if i == -1 else "?")
+    return "?"
 
 
 @R.clause("C14.c", "FIFO: enqueue and dequeue address opposite ends of the backlog")
 def c(ctx):
     enq = []
     deq = []
-    for f in mm_funcs(ctx.prog):
-        for k, n in stores_to(f.node, BL, nested=False):
-            if not (isinstance(n, ast.Call) and isinstance(n.func, ast.Attribute)):
-                continue
-            recv = resolve_local(f.node, n.func.value) if isinstance(n.func.value, ast.Name) else n.func.value
-            if not (isinstance(recv, ast.Subscript) and chain(recv.value) == BL):
+    for f_ in mm_funcs(ctx.prog):
+        sc = K.Scope(f_)
+        for o in K.table_ops(sc, BL):
+            if o.level != "elem":
                 continue  # operations on the table itself, not on a remote's queue
-            a = n.func.attr
-            if a in ("append", "insert", "appendleft"):
-                end = "back" if a == "append" else ("front" if a == "appendleft" or (n.args and isinstance(n.args[0], ast.Constant) and n.args[0].value == 0) else "?")
-                enq.append((f, n, end))
-            elif a in ("pop", "popleft"):
-                if a == "popleft" or (n.args and isinstance(n.args[0], ast.Constant) and n.args[0].value == 0):
-                    end = "front"
-                elif not n.args or (isinstance(n.args[0], ast.UnaryOp) and ast.unparse(n.args[0]) == "-1"):
-                    end = "back"
-                else:
-                    end = "?"
-                deq.append((f, n, end))
+            if o.kind in ENQ:
+                enq.append((f_, o.node, _queue_end(o)))
+            elif o.kind in DEQ:
+                deq.append((f_, o.node, _queue_end(o)))
+            elif o.kind.startswith("ref:") or o.kind in ("sort", "reverse"):
+                deq.append((f_, o.node, "?"))
     ctx.floor("enqueue sites", len(enq), 1)
     ctx.floor("dequeue sites", len(deq), 1)
-    ends = {e for _, _, e in enq}
-    for f, n, end in deq:
+    ends = {e_ for _, _, e_ in enq}
+    for f_, n, end in deq:
         ok = end != "?" and "?" not in ends and len(ends) == 1 and end != next(iter(ends))
-        ctx.ob("held-back messages are released in submission order (dequeue end opposite to enqueue end)", ok, f, n, detail="enqueue at %s, dequeue at %s" % (sorted(ends), end))
+        ctx.ob("held-back messages are released in submission order (dequeue end opposite to enqueue end)", ok, f_, n, detail="enqueue at %s, dequeue at %s" % (sorted(ends), end))
 
 
 @R.clause("C14.d", "_continue_backlog sends the head only while no exchange with that remote is active; deletes only an empty entry")
 def d(ctx):
-    fi = ctx.prog.func(MM + "_continue_backlog")
+    prog = ctx.prog
+    cls = prog.cls("messagemanager.MessageManager")
+    fi = prog.func(MM + "_continue_backlog")
     r = params(fi)[0]
     cfg = cfg_of(fi)
+    ke = K.KeyEval(prog, cls, AX)
+    sc = ke.scope(fi)
+    rav = ("param", r)
     ctx.ob("_continue_backlog is atomic", is_plain_sync(fi), fi, fi.node, construct="def _continue_backlog")
-    sends = list(find("self._send_initially($*a)", fi.node))
+    sends = _self_calls(fi.node, "_send_initially")
     ctx.floor("_send_initially in _continue_backlog", len(sends), 1)
+    bops = K.table_ops(sc, BL)
 
-    def is_active_test(e):
-        """any(<x> == remote for ... in self._active_exchanges[.keys()])"""
-        if not (isinstance(e, ast.Call) and chain(e.func) == "any" and len(e.args) == 1 and isinstance(e.args[0], (ast.GeneratorExp, ast.ListComp))):
-            return False
-        g = e.args[0]
-        if len(g.generators) != 1 or g.generators[0].ifs:
-            return False
-        it = g.generators[0].iter
-        base = it.func.value if (isinstance(it, ast.Call) and isinstance(it.func, ast.Attribute) and it.func.attr == "keys") else it
-        if chain(base) != AX:
-            return False
-        tgt = g.generators[0].target
-        first = tgt.elts[0] if isinstance(tgt, ast.Tuple) and len(tgt.elts) == 2 else None
-        elt = g.elt
-        if not (isinstance(elt, ast.Compare) and len(elt.ops) == 1 and isinstance(elt.ops[0], ast.Eq)):
-            return False
-        sides = [elt.left, elt.comparators[0]]
-        has_r = any(isinstance(x, ast.Name) and x.id == r for x in sides)
-        has_first = first is not None and any(same(x, first) for x in sides)
-        return has_r and has_first
+    # "an exchange with <remote> is active": any(key remote == remote for key in table) in any spelling, also
+    # behind a helper (`any(...)`, search loop with early return, `remote in {r for r, _ in table}`)
+    _pol = {}
 
-    for c, bnd in sends:
-        nid = cfg.loc1(c)
-        gs = guard_exprs(cfg, nid)
-        ok = any(is_active_test(e) and not pol for e, pol in gs)
-        ctx.ob("a held-back message is released only while no exchange with that remote is active", ok, fi, c, detail="guards: %s" % [stmt_text(e) for e, _ in gs])
-        # re-tested before every further release: the send lies on a cycle through the test
-        tests = [n.id for n in cfg.nodes if n.kind == "test" and is_active_test(n.ast)]
-        ctx.ob("the condition is re-evaluated before each further release", any(t in cfg.reach({nid}) and nid in cfg.reach({t}) for t in tests) or nid not in cfg.reach({nid}), fi, c)
-        a = bnd["a"]
-        pops = [n for k, n in stores_to(fi.node, BL) if k in ("pop", "popleft")]
-        src_ok = False
-        if len(a) == 2 and all(isinstance(x, ast.Name) for x in a):
-            for w in writes_to_name(fi.node, a[0].id):
-                if isinstance(w, ast.Assign) and isinstance(w.targets[0], ast.Tuple) and [getattr(e, "id", None) for e in w.targets[0].elts] == [a[0].id, a[1].id] and any(w.value is p for p in pops):
-                    qv = w.value.func.value
-                    if isinstance(qv, ast.Name):
-                        qv = resolve_local(fi.node, qv)
-                    src_ok = match("self._backlogs[%s]" % r, qv) is not None
-        ctx.ob("what is released is the head of that remote's backlog together with its error monitor", src_ok, fi, c)
-    dels = [(k, n) for k, n in stores_to(fi.node, BL) if k in ("delitem",) or (k == "pop" and chain(n.func.value) == BL)]
-    ctx.floor("backlog entry deletions in _continue_backlog", len(dels), 1)
+    def active_pol(e):
+        if id(e) not in _pol:
+            _pol[id(e)] = ke.exists_polarity(sc, e, rav)
+        return _pol[id(e)]
 
-    def is_queue(e):
-        if isinstance(e, ast.Name):
-            e = resolve_local(fi.node, e)
-        return match("self._backlogs[%s]" % r, e) is not None
-
-    def says_empty(e, pol):
-        if is_queue(e):
-            return not pol
-        if isinstance(e, ast.Compare) and len(e.ops) == 1:
-            l, rr, op = e.left, e.comparators[0], e.ops[0]
-            if is_queue(rr) and not is_queue(l):
-                l, rr = rr, l
-            if is_queue(l) and isinstance(rr, (ast.List, ast.Tuple)) and not rr.elts:
-                return pol if isinstance(op, ast.Eq) else (not pol if isinstance(op, ast.NotEq) else False)
-            ln_ = l if (isinstance(l, ast.Call) and chain(l.func) == "len" and len(l.args) == 1 and is_queue(l.args[0])) else None
-            if ln_ is not None and isinstance(rr, ast.Constant) and rr.value == 0:
-                if isinstance(op, ast.Eq):
-                    return pol
-                if isinstance(op, (ast.Gt, ast.NotEq)):
-                    return not pol
-        if isinstance(e, ast.Call) and chain(e.func) == "len" and len(e.args) == 1 and is_queue(e.args[0]):
-            return not pol
+    def no_exchange(guards):
+        """a dominating branch outcome says that no exchange with the remote is active"""
+        for e, pol in guards:
+            ap = active_pol(e)
+            if ap is not None and pol != ap:
+                return True
         return False
 
-    for k, n in dels:
+    tests = [n.id for n in cfg.nodes if n.kind == "test" and active_pol(n.ast) is not None]
+    heads = [n.id for n in cfg.nodes if n.kind in ("T", "F") and n.ast is not None and not isinstance(n.ast, (ast.For, ast.AsyncFor)) and active_pol(n.ast) is not None and (n.kind == "T") != active_pol(n.ast)]
+
+    def own_queue(e):
+        ks = K.recv_kinds(sc, e, BL)
+        return bool(ks) and all(k == "elem" and key is not None and ke.aval(sc, key) == rav for k, key in ks)
+
+    deqs = [o for o in bops if o.level == "elem" and o.kind in DEQ and o.qkey is not None and ke.aval(sc, o.qkey) == rav]
+
+    def component(e):
+        """(source expression, index) when e is component `index` of a tuple-valued source"""
+        if isinstance(e, ast.Name):
+            bs = sc.resolve(e)
+            if len(bs) == 1 and bs[0].kind == "assign" and len(bs[0].path) == 1 and isinstance(bs[0].path[0], int):
+                return sc.deref(bs[0].value), bs[0].path[0]
+        if isinstance(e, ast.Subscript) and _int(e.slice) is not None:
+            return sc.deref(e.value), _int(e.slice)
+        return None, None
+
+    def from_queue(src):
+        """the source is what a dequeue operation on the remote's own queue yields (its popped value, or the item
+        read at an index that the function also deletes)"""
+        if src is None:
+            return False
+        if any(o.node is src for o in deqs if o.kind in ("pop", "popleft")):
+            return True
+        if isinstance(src, ast.Subscript) and own_queue(src.value) and _int(src.slice) is not None:
+            return any(o.kind == "delitem" and len(o.args) == 1 and _int(o.args[0]) == _int(src.slice) for o in deqs)
+        return False
+
+    sp = params(prog.func(MM + "_send_initially"))
+    for c_ in sends:
+        nid = cfg.loc1(c_)
+        gs = guard_exprs(cfg, nid)
+        ctx.ob("a held-back message is released only while no exchange with that remote is active", no_exchange(gs), fi, c_, detail="guards: %s" % [stmt_text(e) for e, _ in gs])
+        # re-tested before every further release: every cycle through the send passes the test
+        ctx.ob("the condition is re-evaluated before each further release", nid not in cfg.reach({cfg.loc1(s_) for s_ in sends}, avoid=set(tests)), fi, c_)
+        src_ok = False
+        if len(c_.args) == 1 and isinstance(c_.args[0], ast.Starred) and not c_.keywords:
+            src_ok = from_queue(sc.deref(c_.args[0].value))
+        else:
+            b_ = _bound(c_, sp)
+            if b_ is not None and len(b_) == 2 and len(sp) >= 2 and sp[0] in b_ and sp[1] in b_:
+                s0, i0 = component(b_[sp[0]])
+                s1, i1 = component(b_[sp[1]])
+                src_ok = s0 is not None and s0 is s1 and (i0, i1) == (0, 1) and from_queue(s0)
+        ctx.ob("what is released is the head of that remote's backlog together with its error monitor", src_ok, fi, c_)
+    dels = [o for o in bops if o.level == "table" and (o.kind in ("del", "rebind") or o.kind.startswith("ref:"))]
+    ctx.floor("backlog entry deletions in _continue_backlog", len(dels), 1)
+
+    class _Unk(Exception):
+        pass
+
+    def ev(e, n):
+        """value of a test about the remote's queue when it holds n items"""
+        if isinstance(e, ast.UnaryOp) and isinstance(e.op, ast.Not):
+            return not ev(e.operand, n)
+        if isinstance(e, ast.Constant) and isinstance(e.value, int):
+            return e.value
+        if _empty_collection(e):
+            return ("items", 0)
+        if isinstance(e, ast.Call) and chain(e.func) in ("len", "bool") and len(e.args) == 1:
+            v = ev(e.args[0], n)
+            if chain(e.func) == "bool":
+                return bool(v[1]) if isinstance(v, tuple) else bool(v)
+            if isinstance(v, tuple):
+                return v[1]
+            raise _Unk()
+        if isinstance(e, ast.Compare) and len(e.ops) == 1:
+            l_, r_ = ev(e.left, n), ev(e.comparators[0], n)
+            if isinstance(l_, tuple) != isinstance(r_, tuple):
+                raise _Unk()
+            if isinstance(l_, tuple):
+                l_, r_ = l_[1], r_[1]
+                if not isinstance(e.ops[0], (ast.Eq, ast.NotEq)):
+                    raise _Unk()
+            import operator
+            tbl = {ast.Eq: operator.eq, ast.NotEq: operator.ne, ast.Lt: operator.lt, ast.LtE: operator.le, ast.Gt: operator.gt, ast.GtE: operator.ge}
+            if type(e.ops[0]) not in tbl:
+                raise _Unk()
+            return tbl[type(e.ops[0])](l_, r_)
+        if own_queue(e):
+            return ("items", n)
+        raise _Unk()
+
+    def says_empty(e, pol):
+        try:
+            vals = []
+            for n in (0, 1, 2):
+                v = ev(e, n)
+                vals.append(bool(v[1]) if isinstance(v, tuple) else bool(v))
+        except _Unk:
+            return False
+        return vals[0] == pol and vals[1] != pol and vals[2] != pol
+
+    send_nodes = {cfg.loc1(c_) for c_ in sends}
+    for o in dels:
+        n = o.node
         nid = cfg.loc1(n)
         gs = guard_exprs(cfg, nid)
-        empty = any(says_empty(e, pol) for e, pol in gs)
+        own = o.kind == "del" and o.key is not None and ke.aval(sc, o.key) == rav
+        empty = own and any(says_empty(e, pol) for e, pol in gs)
         ctx.ob("the backlog entry is deleted only when it is empty", empty, fi, n, detail="guards: %s" % [stmt_text(e) for e, _ in gs])
-        ctx.ob("the entry is deleted only while no exchange with that remote is active", any(is_active_test(e) and not pol for e, pol in gs), fi, n)
-        ctx.ob("after deleting the entry nothing more is released", not (set(cfg.reach({nid})) & {cfg.loc1(c) for c, _ in sends}), fi, n)
-    # each iteration either sends or deletes: from the loop's T pseudo node, every path back to the test or to exit passes a send or a delete
-    heads = [n.id for n in cfg.nodes if n.kind == "F" and is_active_test(n.ast)]
-    ctx.need(heads, "_continue_backlog: no loop on `not any(exchange with remote)`")
-    acts = [cfg.loc1(c) for c, _ in sends] + [cfg.loc1(n) for _, n in dels]
-    tests = [n.id for n in cfg.nodes if n.kind == "test" and is_active_test(n.ast)]
+        ctx.ob("the entry is deleted only while no exchange with that remote is active", no_exchange(gs), fi, n)
+        ctx.ob("after deleting the entry nothing more is released", not (set(cfg.reach({nid})) & send_nodes), fi, n)
+    # each iteration either sends or deletes: from the outcome "no exchange active", every path back to the test or to exit passes a send or a delete
+    ctx.need(heads, "_continue_backlog: no branch on `no exchange with the remote is active`")
+    acts = list(send_nodes) + [cfg.loc1(o.node) for o in dels]
     for h in heads:
         r_ = cfg.reach({h}, avoid=set(acts), skip_labels=("exc",))
         ctx.ob("each round of the loop either releases a message or deletes the empty entry (no spinning)", not (set(tests) & r_) and cfg.exit not in r_, fi, cfg.nodes[h].ast)
@@ -312,67 +556,99 @@ def d(ctx):
 
 @R.clause("C14.e", "exchanges are started only through the guarded sites")
 def e(ctx):
+    prog = ctx.prog
+    cls = prog.cls("messagemanager.MessageManager")
     ae = []
     si = []
-    for f in ctx.prog.funcs.values():
-        for c in calls_in(f.node):
-            cn = call_name(c) or ""
+    for f_ in prog.funcs.values():
+        called = set()
+        for c_ in calls_in(f_.node):
+            cn = call_name(c_) or ""
             if cn.endswith("._add_exchange"):
-                ae.append((f, c))
+                ae.append((f_, c_))
+                called.add(id(c_.func))
             elif cn.endswith("._send_initially"):
-                si.append((f, c))
+                si.append((f_, c_))
+                called.add(id(c_.func))
+        # the methods taken as values (functools.partial, call_later, a stored bound method): who calls them, when
+        # and with what is outside the rule's vocabulary -- none exist in the confirmed tree
+        for n in walk_no_nested(f_.node):
+            if isinstance(n, ast.Attribute) and n.attr in ("_add_exchange", "_send_initially") and id(n) not in called and isinstance(n.ctx, ast.Load):
+                ctx.ob("exchanges and first transmissions are started by direct calls only", False, f_, n)
     ctx.floor("_add_exchange call sites", len(ae), 1)
-    for f, c in ae:
-        ok = f.short == MM + "_send_initially"
-        cfg = cfg_of(f)
-        m = params(f)[0]
-        alive, _ = mtype_values(guard_exprs(cfg, cfg.loc1(c)), "%s.mtype" % m, ("CON", "NON", "ACK", "RST"))
-        ctx.ob("an exchange is started only by _send_initially and only for CON", ok and alive == {"CON"}, f, c)
+    sf_ = prog.func(MM + "_send_initially")
+    for f_, c_ in ae:
+        ok = f_.short == MM + "_send_initially"
+        only_con = False
         if ok:
-            ctx.ob("the exchange is started for the message being sent", c.args and isinstance(c.args[0], ast.Name) and c.args[0].id == m, f, c)
+            m = params(f_)[0]
+            facts = K.SiteFacts(f_, tables=(BL, AX), writer_methods=K.transitive_writers(prog, cls, (BL, AX)))
+            W = K.Worlds(m, BL)
+            ws = set()
+            for fs, env, path in facts.at(cfg_of(f_).loc1(c_)):
+                ws.update(W.feasible(fs))
+            only_con = bool(ws) and all(w[0] == "CON" for w in ws)
+        ctx.ob("an exchange is started only by _send_initially and only for CON", ok and only_con, f_, c_)
+        if ok:
+            b_ = _bound(c_, params(prog.func(MM + "_add_exchange")))
+            first = b_.get(params(prog.func(MM + "_add_exchange"))[0]) if b_ else None
+            ctx.ob("the exchange is started for the message being sent", isinstance(first, ast.Name) and first.id == m and len(writes_to_name(f_.node, m)) == 0, f_, c_)
     # the exchange is registered before the message is handed to the transport: a transport that reports a send
     # failure synchronously (udp6: error_received inside send()) must find the exchange it has to fail
-    sf = ctx.prog.func(MM + "_send_initially")
-    scfg = cfg_of(sf)
-    tx = [scfg.loc1(c) for c in calls_in(sf.node) if (call_name(c) or "") in ("self._send_via_transport", "self.message_interface.send")]
+    scfg = cfg_of(sf_)
+    tx = [scfg.loc1(c_) for c_ in calls_in(sf_.node) if (call_name(c_) or "") == "self._send_via_transport" or (call_name(c_) or "").endswith("message_interface.send")]
     for f_, c_ in ae:
-        if f_ is sf:
-            ctx.ob("the exchange is registered before the message is handed to the transport", bool(tx) and all(not scfg.exists_path(t, scfg.loc1(c_)) for t in tx), sf, c_)
+        if f_ is sf_:
+            ctx.ob("the exchange is registered before the message is handed to the transport", bool(tx) and all(not scfg.exists_path(t, scfg.loc1(c_)) for t in tx), sf_, c_)
     ctx.floor("_send_initially call sites", len(si), 6)
-    for f, c in si:
-        if f.short in (MM + "send_message", MM + "_continue_backlog"):
+    mt = K.MsgTypes(prog, cls)
+    sp = params(sf_)
+    for f_, c_ in si:
+        if f_.short in (MM + "send_message", MM + "_continue_backlog"):
             continue  # guarded by C14.b / C14.d
-        arg = c.args[0] if c.args else None
-        v = resolve_local(f.node, arg) if arg is not None else None
-        ok = False
-        why = stmt_text(v) if v is not None else "?"
-        if isinstance(v, ast.Call) and (call_name(v) or "").split(".")[-1] == "Message":
-            for kw in v.keywords:
-                if kw.arg in ("_mtype", "mtype") and chain(kw.value) in ("ACK", "RST", "NON"):
-                    ok = True
-        if f.short == MM + "_deduplicate_message" and v is not None and match("self._recent_messages[$k]", v) is not None:
-            ok = True  # stored reply to a request: an ACK by construction (C10.d)
+        sc = K.Scope(f_)
+        b_ = _bound(c_, sp)
+        arg = b_.get(sp[0]) if b_ else None
+        types = mt.types(sc, arg) if arg is not None else {"?"}
         # no monitor passed => _send_initially's own assertion documents non-CON
-        ctx.ob("other transmissions bypassing the queue carry ACK/RST/NON messages or a stored reply", ok and len(c.args) == 1 and not c.keywords, f, c, detail=why)
+        no_monitor = b_ is not None and all(k == sp[0] or K.is_none(v) for k, v in b_.items())
+        # ACK/RST/NON by construction (constructor keyword or attribute assignment, possibly inside a builder
+        # helper), or a reply stored for duplicates: an ACK by construction (C10.d)
+        ctx.ob("other transmissions bypassing the queue carry ACK/RST/NON messages or a stored reply", bool(types) and types <= mt.ALLOWED and no_monitor, f_, c_,
+               detail="%s: %s" % (stmt_text(sc.deref(arg)) if arg is not None else "?", sorted(types)))
 
 
 @R.clause("C14.f", "a non-empty backlog is dropped only together with dispatch_error for the same remote")
 def f(ctx):
+    prog = ctx.prog
+    cls = prog.cls("messagemanager.MessageManager")
+    ke = K.KeyEval(prog, cls, AX)
     n_del = 0
-    for fi in mm_funcs(ctx.prog):
-        dels = [(k, n) for k, n in stores_to(fi.node, BL, nested=False) if k == "delitem" or (k == "pop" and not isinstance(n.func.value, ast.Subscript)) or (k == "assign" and fi.name != "__init__") or k == "clear"]
-        for k, n in dels:
+    for fi in mm_funcs(prog):
+        sc = ke.scope(fi)
+        dels = []
+        for o in K.table_ops(sc, BL):
+            if o.level == "table" and (o.kind == "del" or (o.kind == "rebind" and fi.name != "__init__") or o.kind.startswith("ref:")):
+                dels.append(o)
+            elif o.level == "elem" and o.kind in ("clear", "ref:clear"):
+                dels.append(o)  # empties a queue in place
+        for o in dels:
+            n = o.node
             n_del += 1
             if fi.short == MM + "_continue_backlog":
                 continue  # emptiness is checked in C14.d
             cfg = cfg_of(fi)
             nid = cfg.loc1(n)
-            r = n.args[0] if k == "pop" else (n.targets[0].slice if k == "delitem" else None)
-            calls = [(c, b) for c, b in find("self.token_manager.dispatch_error($e, $r)", fi.node)]
+            key = o.key if o.level == "table" else o.qkey
+            rv = ke.aval(sc, key) if key is not None else None
             ok = False
-            for c, b in calls:
-                cn = cfg.loc1(c)
-                if r is not None and same(b["r"], r) and (cfg.must_pass(nid, [cn]) or cfg.dominates(cn, nid)):
+            for c_ in calls_in(fi.node):
+                if not (isinstance(c_.func, ast.Attribute) and c_.func.attr == "dispatch_error" and chain(sc.deref(c_.func.value)) == "self.token_manager"):
+                    continue
+                b_ = _bound(c_, ["exception", "remote"])
+                r2 = b_.get("remote") if b_ else None
+                cn = cfg.loc1(c_)
+                if rv is not None and r2 is not None and ke.aval(sc, r2) == rv and (cfg.must_pass(nid, [cn]) or cfg.dominates(cn, nid)):
                     ok = True
             ctx.ob("dropping a backlog fails its requests (dispatch_error for the same remote on every path)", ok, fi, n)
     ctx.floor("backlog deletions", n_del, 3)
@@ -409,5 +685,12 @@ R.seed("C14.e", F_MM, "        if message.mtype is CON:\n            assert mess
 R.seed("C14.f", F_MM, "            del self._backlogs[message.remote]\n            self.token_manager.dispatch_error(\n                error.ConRetransmitsExceeded(\"Retransmissions exceeded\"), message.remote\n            )", "            del self._backlogs[message.remote]", "queued requests forgotten on give-up")
 R.seed("C14.f", F_MM, "        self.token_manager.dispatch_error(error, remote)\n\n        keys_for_removal = []", "        keys_for_removal = []", "queued requests forgotten on transport error")
 
+R.seed("C14.a", F_MM, "            if remote == exchange_remote:\n                keys_for_removal.append(key)", "            if True:\n                keys_for_removal.append(key)", "a transport error of one peer ends the exchanges of all peers; their backlogs are never continued")
+R.seed("C14.a", F_MM, "        if message.remote not in self._backlogs:\n            self._backlogs[message.remote] = []\n", "        if message.remote not in self._backlogs:\n            self._backlogs[message.mid] = []\n", "backlog entry created under a key that is not the remote")
+R.seed("C14.b", F_MM, "        if message.mtype == CON and message.remote in self._backlogs:", "        if message.mtype == CON and message.remote in self._backlogs and message.opt.observe is None:", "a further condition lets some CONs bypass the queue")
+R.seed("C14.c", F_MM, "            self._backlogs[message.remote].append((message, messageerror_monitor))", "            self._backlogs[message.remote].insert(0, (message, messageerror_monitor))", "enqueue at the head: LIFO")
+R.seed("C14.d", F_MM, "            if self._backlogs[remote] != []:\n                next_message", "            if len(self._backlogs[remote]) > 1:\n                next_message", "an entry that still holds one message is deleted")
+R.seed("C14.d", F_MM, "                next_message, messageerror_monitor = self._backlogs[remote].pop(0)\n", "                messageerror_monitor, next_message = self._backlogs[remote].pop(0)\n", "monitor and message swapped on release")
+R.seed("C14.e", F_MM, "        rst = Message(_mtype=RST, _mid=message.mid, code=EMPTY, payload=b\"\")\n        rst.remote = message.remote.as_response_address()\n        # not going", "        rst = Message(_mtype=CON, _mid=message.mid, code=EMPTY, payload=b\"\")\n        rst.remote = message.remote.as_response_address()\n        # not going", "a CON bypasses the queue")
 R.seed("C14.g", F_MM, "        if message.code.is_request():\n            # Responses", "        if not message.code.is_response():\n            # Responses", "empty ACK/RST pass the duplicate filter first: an ACK with a recently seen message ID never ends the exchange")
 R.seed("C14.h", "aiocoap/tokenmanager.py", "                    lambda request=request, exception=exception: request.add_exception(\n                        exception\n                    )", "                    lambda: request.add_exception(\n                        exception\n                    )", "held-back requests are neither sent nor failed")
